@@ -105,7 +105,7 @@ public:
         return current;
     }
 
-    base_array<T> operator*() const noexcept {
+    base_array<T> operator*() const {
         return base_array<T>(*this);
     }
 
@@ -214,7 +214,7 @@ public:
         return current;
     }
 
-    base_array<T> operator*() const noexcept {
+    base_array<T> operator*() const {
         return base_array<T>(*this);
     }
 
